@@ -13,6 +13,7 @@ import (
 	"testing"
 	"time"
 
+	"github.com/BurntSushi/toml"
 	"github.com/robustirc/robustirc/internal/config"
 	"github.com/robustirc/robustirc/internal/robust"
 	"pgregory.net/rapid"
@@ -166,8 +167,13 @@ func c16Execute(c *c16Case, rt *rapid.T, base string, rec *vh.Recorder) (fail *v
 				}
 				rev++
 				expected = parsed
-				if expected.Banned == nil {
-					expected.Banned = map[string]string{}
+				// the ban table in force is the one of the posted text, decoded here independently of
+				// config.FromString (and never sharing a map with the implementation)
+				var tables struct{ Banned map[string]string }
+				toml.Decode(a.TOML, &tables)
+				expected.Banned = map[string]string{}
+				for k, v := range tables.Banned {
+					expected.Banned[k] = v
 				}
 				origins = len(expected.WhitelistedOrigins) > 0
 				accepted++
@@ -210,7 +216,7 @@ func c16Execute(c *c16Case, rt *rapid.T, base string, rec *vh.Recorder) (fail *v
 			}
 			loggedIn := false
 			for _, ws := range worldOf(ircServer).Sessions {
-				if ws.Id == s.Num && ws.Reply == 0 && ws.LoggedIn && !ws.Server {
+				if robust.IdFromRaftIndex(ws.Id) == s.Num && ws.Reply == 0 && ws.LoggedIn && !ws.Server {
 					loggedIn = true
 				}
 			}
